@@ -20,11 +20,12 @@
   NotRequiredFieldAsNullableType and the end of the chain.  On the plain fragment `xden false`
   implies `den` (Cog/Sem/WidenDen.lean).
 
-  Core Lean only (the driver evaluates `Plain`, `srcDen`).
+  Core Lean only (the driver evaluates `Plain`, `srcDen`).  Everything of the pass-widening development
+  lives in the namespace `Cog.Sem.Src` (the driver links every property's modules: no name clashes).
 -/
 import Cog.Sem.Den
 import Cog.Passes.Common
-namespace Cog.Sem
+namespace Cog.Sem.Src
 open Cog.IR Cog.Passes
 
 /-! ### constants and enum members against JSON values -/
@@ -172,4 +173,4 @@ def plainSchema (s : Schema) : Bool :=
 
 def Plain (S : Schemas) : Bool := S.all plainSchema
 
-end Cog.Sem
+end Cog.Sem.Src
